@@ -7,7 +7,7 @@
    parser vs `parse` evaluated in Coq on the real lexer's tokens). *)
 From Coq Require Import List ZArith Bool Arith.
 From YV Require Import Common.Corr Model.OpTable Model.Pratt Gen.OpTables.
-From YV Require Import Lemmas.PrattYield Lemmas.PrattWf Lemmas.PrattShape Lemmas.PrattUnique Lemmas.PrattUniqueFull Lemmas.OpTableInsert.
+From YV Require Import Lemmas.PrattYield Lemmas.PrattWf Lemmas.PrattShape Lemmas.PrattUnique Lemmas.PrattUniqueFull Lemmas.OpTableInsert Lemmas.OpTableLevels.
 Import ListNotations.
 Open Scope Z_scope.
 
@@ -142,6 +142,19 @@ Proof.
                       | or_intror R => reachable_groups_ok _ ops legacy_groups_ok R
                       end).
 Qed.
+
+(* ... and therefore parser.py drops no level: for every operator list reachable from the
+   default or legacy table (more generally: whenever every group holds a role), the levels
+   _build_operator_table records are exactly 1..G, precedence_dict has at least G keys, and
+   `for i in range(1, len(precedence_dict) + 1)` visits every level that is in use *)
+Theorem C02_no_level_dropped_groups : forall ops B,
+  groups_ok ops -> build_table ops = Some B -> all_levels_visited B = true.
+Proof. exact groups_ok_all_levels_visited. Qed.
+
+Theorem C02_no_level_dropped : forall ops B,
+  reachable Spec.default_ops ops \/ reachable Spec.legacy_ops ops ->
+  build_table ops = Some B -> all_levels_visited B = true.
+Proof. exact (fun ops B R => groups_ok_all_levels_visited ops B (C02_reachable_contiguous ops R)). Qed.
 
 (* the live tables are the documented ones, and the model of _build_operator_table
    reproduces the live result (levels and aliases per symbol; ply token names are
